@@ -257,3 +257,41 @@ pub proof fn lemma_int_digits_radix(x: int, nbits: int, g: int, n: int)
 pub proof fn lemma_radix_base()
     ensures p2(1) == 2, p2(3) == 8, p2(4) == 16, p2(0) == 1
 { lemma2_to64(); }
+// ---- ceil(i log10 2) as display.rs computes it, against powers of two (checked by computation for every i <= 128) ----
+pub open spec fn clog(i: int) -> int { (i * 0x4D10_4D43 + 0xFFFF_FFFF) / 0x1_0000_0000 }
+pub open spec fn clog_cond(i: int) -> bool {
+    &&& ipow(2, i) <= ipow(10, clog(i))
+    &&& (i >= 1 ==> ipow(2, i) < ipow(10, clog(i)))
+    &&& (clog(i) >= 1 ==> ipow(10, clog(i) - 1) < ipow(2, i))
+    &&& 0 <= clog(i) <= i
+}
+pub open spec fn clog_ok(i: int) -> bool decreases i { if i <= 0 { clog_cond(0) } else { clog_cond(i) && clog_ok(i - 1) } }
+pub proof fn lemma_clog_down(i: int, n: int)
+    requires 0 <= i <= n, clog_ok(n)
+    ensures clog_cond(i)
+    decreases n - i
+{ if i < n { lemma_clog_down(i, n - 1); } }
+// 10^(clog(i)-1) < 2^i <= 10^clog(i)  (strict on the right for i >= 1)
+pub proof fn lemma_clog(i: int)
+    requires 0 <= i <= 128
+    ensures p2(i) <= ipow(10, clog(i)), i >= 1 ==> p2(i) < ipow(10, clog(i)), clog(i) >= 1 ==> ipow(10, clog(i) - 1) < p2(i), 0 <= clog(i) <= i
+{
+    assert(clog_ok(128)) by (compute_only);
+    lemma_clog_down(i, 128);
+    lemma_two_pow(i);
+}
+// all digits shown (10^m > 2^nbits, or nothing to show): the rounded expansion is within half a unit of the last fractional bit
+pub proof fn lemma_fclose_full(x: int, m: int, w: int, nbits: int)
+    requires w >= 1, nbits >= 0, m >= 0, p2(nbits) < ipow(10, m) || frem(x, m, w) == 0
+    ensures fclose(x, m, w, nbits)
+{
+    lemma_p2_pos(w); lemma_p2_pos(nbits); lemma_ipow_pos(10, m); lemma_p2_step(w); lemma_p2_pos(w - 1);
+    let r = frem(x, m, w); let pw = p2(w); let pn = p2(nbits); let t = ipow(10, m);
+    lemma_mod_bound(x * t, pw);
+    let a = imin(r, pw - r);
+    if r == 0 { assert(2 * 0 * pn < t * pw) by (nonlinear_arith) requires t >= 1, pw >= 1; }
+    else {
+        assert(2 * a <= pw);
+        assert(2 * a * pn < t * pw) by (nonlinear_arith) requires 2 * a <= pw, pn < t, pw >= 1, pn >= 1, a >= 0;
+    }
+}
